@@ -6,6 +6,9 @@ coq/Model/Writer.v (ocaml/writer_driver.ml).  Each property's check filters the 
 
 go result / model result per op:
   add, size, wm : the model computes what the Go code must print (exact diff)
+  cfgd          : the option accessors (zero / negative field -> documented default) against cfg_of_options
+  wire          : real Writer on the real Transport over synchronous pipes to a wire-level fake broker that
+                  stalls mid-request; judged like e2e but only by the order / limits / log predicates
   prr, pr       : Client.Produce's mapping of a produce response (error code -> Error, Throttle, BaseOffset,
                   LogAppendTime, LogStartOffset, RecordErrors) against produce_error / make_time_ms of the
                   model; prr sweeps ALL 65536 error codes on every run
@@ -125,6 +128,11 @@ def failures_of_case(c):
                 out.append(("*", "correspondence", "Client.Produce's response mapping (error code value / Throttle / BaseOffset / "
                             "LogAppendTime / LogStartOffset / RecordErrors) differs from the model", None))
         return out
+    if op == "cfgd":
+        if go != model:
+            out.append(("*", "correspondence", "the Writer's option accessors (batchSize()/batchBytes()/maxAttempts()/…: zero or "
+                        "negative field -> documented default) differ from the model's cfg_of_options", None))
+        return out
     if op in ("add", "size", "wm"):
         if go != model:
             what = {"add": "writeBatch.add/full differ from the model's add_fits/add_msg/full",
@@ -146,7 +154,7 @@ def failures_of_case(c):
         if go != model:
             out.append(("C09", "correspondence", f"batchMessages-after-Close scenario: implementation says {go}, model says {model}", None))
         return out
-    if op == "e2e":
+    if op in ("e2e", "wire"):
         if go.startswith("HANG:close"):
             out.append(("C09", "property", "Close did not return within the watchdog", None))
         elif go.startswith("HANG"):
@@ -189,6 +197,10 @@ def relevant(prop, c):
         return prop == "C08"
     if op in ("prr", "pr"):
         return prop == "C01"
+    if op == "cfgd":
+        return prop == "C08"
+    if op == "wire":
+        return prop == "C07"
     if op == "wm":
         return prop in ("C08", "C07", "C01")
     return False
@@ -202,6 +214,10 @@ def nontrivial(c):
         return "queued" in c["feats"] or "call-split" in c["feats"]
     if c["op"] == "prr":
         return True
+    if c["op"] == "cfgd":
+        return "zero-fields=0" not in c["feats"]
+    if c["op"] == "wire":
+        return "stall" in c["feats"]
     if c["op"] == "pr":
         return c["feats"] not in ("code-zero", "")
     if c["op"] != "e2e":
